@@ -252,6 +252,23 @@ func main() {
 				}
 			}
 			brokerCase(out, off, iv, tss)
+			if r.Chance(50) {
+				// the next requests, for databases of other interval types, get the same pooled batch (BrokerBatchRows come from a
+				// process-wide pool shared by all databases of a broker) and carry timestamps of the same hours and days
+				for k := 0; k < 2; k++ {
+					tn2 := (tn + 1 + r.Intn(2)) % 3
+					if k == 1 {
+						tn2 = tn
+					}
+					ivs2 := intervals[tn2]
+					tss2 := make([]int64, len(tss))
+					for j, ts := range tss {
+						tss2[j] = ts + int64(r.Intn(3))*3600000*int64(r.Range(0, 3))
+					}
+					brokerCase(out, off, ivs2[r.Intn(len(ivs2))], tss2)
+					out.Count("broker-batch-pooled-after-another-interval-type")
+				}
+			}
 		}
 	}
 	time.Local = time.UTC
